@@ -57,12 +57,8 @@ func ReadAsUint8Slice[T any](r Reader, c []T) (n int64, err error) {
 
 // Read reads a slice of bytes from r and copies it on c.
 func Read(r Reader, c []byte) (n int64, err error) {
-	slice, err := r.Peek(len(c))
-	if err != nil {
-		return int64(len(slice)), err
-	}
-	copy(c, slice)
-	nint, err := r.Discard(len(c))
+	// Not through Peek: len(c) may exceed the size of the reader's buffer.
+	nint, err := io.ReadFull(r, c)
 	return int64(nint), err
 }
 
